@@ -33,7 +33,11 @@ CylinderSegment port — translated case functions and dispatch (Model/CylSeg.le
 Tolerances from measured deviations (40 000 wrapper rows, 20 000 block rows, 6 000 H rows): case id exact; 3x3 blocks 1e-10 of the block's largest
 entry (largest seen 1.3e-12); `cylsegH` 1e-9 of max(|value|, M/4pi) (largest seen 1.5e-11, case ids 213/215/233/235); wrapper rows 1e-10 of the
 polarization scale (largest seen 3e-13) except observers in the bore at 1e-3 outer radii from the axis of a segment without bore: 1e-8 (largest seen
-5.8e-10 — cancellation in the real formulas amplifies the last-digit differences of the elliptic integrals); ellipkinc/ellipeinc 1e-13 (2.3e-15), el3_angle 1e-10 (3e-16).""" 
+5.8e-10 — cancellation in the real formulas amplifies the last-digit differences of the elliptic integrals); ellipkinc/ellipeinc 1e-13 (2.3e-15), el3_angle 1e-10 (3e-16).
+Kinds `l1cuboid`, `l1sphere`, `l1cylinder`, `l1tetra`, `l1cylseg` (C02, keyword `in_out`): the same inputs, but the real function is reached the way
+getBH_level2 reaches it — through `getBH_level1(field_func=…, in_out=io, position=0, orientation=identity, …)` with io in 'auto' / 'inside' /
+'outside' / a misspelt value — against `Kern.cuboidL1 … cylSegL1` (Model/InOut.lean: level1's keyword filter over the regenerated table of
+signatures, `point_inside` with its in_out branches); same tolerances as the base kinds.""" 
 import struct
 
 import numpy as np
@@ -55,6 +59,17 @@ def unbits(s):
 
 def enc(v):
     return " ".join(bits(x) for x in np.ravel(v))
+
+
+IO_TOK = {"auto": "auto", "inside": "inside", "outside": "outside", "bogus": "other"}
+
+
+def level1_call(func, f, x, io, **kw):
+    """one row through getBH_level1 (source at the origin, unit orientation) with the keyword in_out"""
+    from magpylib._src.fields.field_wrap_BH import getBH_level1
+    from scipy.spatial.transform import Rotation
+
+    return getBH_level1(field_func=func, field=f, position=np.zeros((1, 3)), orientation=Rotation.identity(1), observers=x[None], in_out=io, **kw)[0]
 
 
 def stratified_point(rng, nps, size):
@@ -129,7 +144,7 @@ def cylinder_case(rng, nps, sc):
     return d, h, np.asarray(x, dtype=float), stratum
 
 
-def run_stream(ctx, n, only=None):
+def run_stream(ctx, n, only=None, with_in_out=False):
     from magpylib import mu_0
     from magpylib._src.fields.field_BH_cuboid import BHJM_magnet_cuboid
     from magpylib._src.fields.field_BH_cylinder import BHJM_magnet_cylinder
@@ -145,11 +160,17 @@ def run_stream(ctx, n, only=None):
     lines, expect, meta = [], [], []
     for i in range(n):
         nps = np.random.default_rng(rng.randrange(2**31))
-        kinds = only or ["dipole", "sphere", "segment", "cuboidmask", "cuboid", "triangle", "tetra", "circle", "tetrainside", "cel0", "celiter", "cylinder", "cylmask", "cylinder", "celbatch", "el3batch"]  # cylinder twice: twelve observer strata x six polarization kinds
+        kinds = only or (["dipole", "sphere", "segment", "cuboidmask", "cuboid", "triangle", "tetra", "circle", "tetrainside", "cel0", "celiter", "cylinder", "cylmask", "cylinder", "celbatch", "el3batch"]  # cylinder twice: twelve observer strata x six polarization kinds
+                         + (["l1cuboid", "l1tetra", "l1sphere", "l1cylinder", "l1tetra", "l1cylseg"] if with_in_out else []))  # C02: the keyword in_out through getBH_level1
         kind = kinds[i % len(kinds)]
         sc = 10.0 ** nps.uniform(-3, 3)
+        io = None
+        if kind.startswith("l1"):  # the same row through getBH_level1 with the keyword in_out
+            io = rng.choice(["auto", "inside", "outside", "bogus", "inside", "outside"])
+            kind = kind[2:]
+        pre = f"kern l1 {IO_TOK[io]} " if io else "kern "
         if kind.startswith("cylseg"):
-            ln, ex, m = cylseg_rows.row_wrapper(rng, nps, mu_0) if kind == "cylseg" else cylseg_rows.KINDS[kind](rng, nps)
+            ln, ex, m = cylseg_rows.row_wrapper(rng, nps, mu_0, in_out=io) if kind == "cylseg" else cylseg_rows.KINDS[kind](rng, nps)
             lines.append(ln)
             expect.append(ex)
             meta.append(m)
@@ -165,8 +186,9 @@ def run_stream(ctx, n, only=None):
             x = stratified_point(rng, nps, d / 2)
             if rng.random() < 0.15:
                 x = x / np.linalg.norm(x) * d / 2  # on the surface up to rounding
-            r = BHJM_magnet_sphere(f, x[None], np.array([d]), pol[None])[0]
-            lines.append(f"kern sphere {f} {bits(d)} {enc(pol)} {enc(x)}")
+            r = (level1_call(BHJM_magnet_sphere, f, x, io, diameter=np.array([d]), polarization=pol[None]) if io
+                 else BHJM_magnet_sphere(f, x[None], np.array([d]), pol[None])[0])
+            lines.append(pre + f"sphere {f} {bits(d)} {enc(pol)} {enc(x)}")
             scale = np.linalg.norm(pol) * (1 if f in "BJ" else 1 / mu_0)
         elif kind == "segment":
             p1, p2 = nps.uniform(-1, 1, 3) * sc, nps.uniform(-1, 1, 3) * sc
@@ -237,8 +259,9 @@ def run_stream(ctx, n, only=None):
                 expect.append(("mask", str(inside).lower(), None))
                 meta.append({"kind": kind, "v": v.tolist(), "x": x.tolist()})
                 continue
-            r = BHJM_magnet_tetrahedron(f, x[None], v[None].copy(), pol[None])[0]
-            lines.append(f"kern tetra {f} {enc(v)} {enc(pol)} {enc(x)}")
+            r = (level1_call(BHJM_magnet_tetrahedron, f, x, io, vertices=v[None].copy(), polarization=pol[None]) if io
+                 else BHJM_magnet_tetrahedron(f, x[None], v[None].copy(), pol[None])[0])
+            lines.append(pre + f"tetra {f} {enc(v)} {enc(pol)} {enc(x)}")
             scale = np.linalg.norm(pol) * (1 if f in "BJ" else 1 / mu_0) + 1e-300
         elif kind == "circle":
             d = nps.uniform(0.5, 2) * sc * rng.choice([1, 1, 1, -1])
@@ -421,11 +444,12 @@ def run_stream(ctx, n, only=None):
                 pol[rng.randrange(2)] = 0.0
             elif pk == "zero":
                 pol[:] = 0.0
-            lines.append(f"kern cylinder {f} {bits(d)} {bits(h)} {enc(pol)} {enc(x)}")
-            meta.append({"kind": kind, "field": f, "stratum": stratum, "pol": pk, "line": lines[-1][:80]})
+            lines.append(pre + f"cylinder {f} {bits(d)} {bits(h)} {enc(pol)} {enc(x)}")
+            meta.append({"kind": kind, "field": f, "stratum": stratum, "pol": pk, "line": lines[-1][:80], **({"l1": io} if io else {})})
             try:
                 with np.errstate(all="ignore"):
-                    r = BHJM_magnet_cylinder(f, x[None], dim, pol[None])[0]
+                    r = (level1_call(BHJM_magnet_cylinder, f, x, io, dimension=dim, polarization=pol[None]) if io
+                         else BHJM_magnet_cylinder(f, x[None], dim, pol[None])[0])
             except RuntimeError:
                 expect.append(("mask", "none", None))
                 continue
@@ -436,8 +460,9 @@ def run_stream(ctx, n, only=None):
             if rng.random() < 0.2:
                 pol[rng.randrange(3)] = 0.0
             x = stratified_point(rng, nps, dim / 2)
-            r = BHJM_magnet_cuboid(f, x[None], dim[None], pol[None])[0]
-            lines.append(f"kern cuboid {f} {enc(dim)} {enc(pol)} {enc(x)}")
+            r = (level1_call(BHJM_magnet_cuboid, f, x, io, dimension=dim[None], polarization=pol[None]) if io
+                 else BHJM_magnet_cuboid(f, x[None], dim[None], pol[None])[0])
+            lines.append(pre + f"cuboid {f} {enc(dim)} {enc(pol)} {enc(x)}")
             scale = np.linalg.norm(pol) * (1 if f in "BJ" else 1 / mu_0) + 1e-300
             # arctan2/log cancellation close to faces: compare relative to the polarization scale
         else:
@@ -455,7 +480,7 @@ def run_stream(ctx, n, only=None):
             meta.append({"kind": kind, "dim": dim.tolist(), "pol": pol.tolist(), "x": x.tolist()})
             continue
         expect.append(("vec", r, scale))
-        meta.append({"kind": kind, "field": f, "line": lines[-1][:80], **({"stratum": tri_stratum} if kind == "triangle" else {})})
+        meta.append({"kind": kind, "field": f, "line": lines[-1][:80], **({"stratum": tri_stratum} if kind == "triangle" else {}), **({"l1": io} if io else {})})
     out = run_driver(lines)
     stats = {"rows": len(lines), "per_kind": {}, "disagreements": 0, "nonzero_rows": 0, "branch": {}, "cylinder_strata": {},
              "cylinder_max_reldiff": 0.0, "cylseg_case_ids": {}, "cylseg_max_reldiff_by_case_id": {}, "cylseg_max_reldiff_by_kind": {},
@@ -467,7 +492,11 @@ def run_stream(ctx, n, only=None):
                           "nan_entries": 0, "max_reldiff": 0.0}}
     samples = []
     for ln, o, (typ, exp, scale), m in zip(lines, out, expect, meta):
-        stats["per_kind"][m["kind"]] = stats["per_kind"].get(m["kind"], 0) + 1
+        pk_ = ("l1" if m.get("l1") else "") + m["kind"]
+        stats["per_kind"][pk_] = stats["per_kind"].get(pk_, 0) + 1
+        if m.get("l1"):
+            stats.setdefault("in_out_rows", {})
+            stats["in_out_rows"][m["l1"]] = stats["in_out_rows"].get(m["l1"], 0) + 1
         if m["kind"] == "celbatch":
             cb = stats["celbatch"]
             cb["batches"] += 1
